@@ -15,6 +15,7 @@ LEVEL_TEXT = ('Proof: Omega = kappa of the {P,E,D,K,R}-recoded pattern = kappa_X
               'invariant under swapping disjoint groups (via kappa_inv), member order/repetition, letter case (256-case ASCII '
               'lemma), complementation; non-amino-acid members are rejected; Omega_seq marks exactly the PEDKR positions. '
               'Tie: or-chains and output letters extracted from source; real getters compared with the model in Coq.')
+LEVEL_NOTE_MINIPY = ' Whole-function semantic ties (source translated to Core/MiniPy terms on every run, proved equal to the model for all inputs): __parse_group, kappa_X (callee run through its own translation), Omega, Omega_seq.'
 LEVEL_NOTE = 'Closed under the global context. Trusts py2coq extraction of Omega/kappa_X recoding, harness canonicalisation.'
 TECHNIQUE = 'Coq proof (recoding algebra + kappa inversion invariance) + translator tie + in-Coq correspondence'
 
